@@ -81,7 +81,9 @@ where
         false => squares + 1,
         true => squares + 2,
     };
-    let potential = (u_nbrs.len() - degm) + (w_nbrs.len() - degm) + squares;
+    // on a directed graph a successor need not point back, so the neighbor counts can be smaller than `degm`
+    let potential =
+        u_nbrs.len().saturating_sub(degm) + w_nbrs.len().saturating_sub(degm) + squares;
     (squares, potential)
 }
 
